@@ -30,7 +30,8 @@ def gen_case(rng, tier, k):
     nmax = 6 if tier == "quick" else 7
     bnet = common.g_compose(rng, extra_max=max(0, nmax - 4)) if rng.random() < 0.6 else common.g_mixed(rng, nmax=nmax, p_core=0.0)
     prefix = gen_ops(rng, rng.randint(0, 4), allow_skip=True, allow_unmodelled=False)
-    qs = [[rng.randrange(64), rng.choice(["sets", "seeds-sets", "seeds-reclaim-sets", "seeds-pickle-sets", "sets-sets"])]
+    qs = [[rng.randrange(64), rng.choice(["sets", "seeds-sets", "seeds-reclaim-sets", "seeds-pickle-sets", "sets-sets",
+                                           "rawcands-seeds-sets", "rawcands-sets"])]
           for _ in range(rng.randint(1, 4))]
     return {"bnet": bnet, "ops": prefix, "queries": qs, "fallback": rng.random() < 0.7}
 
@@ -51,7 +52,10 @@ def run_case(case):
     for q, (a, mode) in enumerate(case["queries"]):
         i = a % len(sd)
         try:
-            if mode.startswith("seeds"):
+            if mode.startswith("rawcands"):
+                # candidates without any minification: several candidates per attractor reach the symbolic filter
+                sd.node_attractor_candidates(i, compute=True, greedy_asp_minification=False, simulation_minification=False)
+            if "seeds" in mode.split("-"):
                 sd.node_attractor_seeds(i, compute=True)
             if mode == "sets-sets":
                 sd.node_attractor_sets(i, compute=True)
